@@ -204,8 +204,11 @@ Definition tag_for (h : h1) (bad : list key) : N := if subsetb bad (republish_ke
 
 (* the wall-clock clause on the observation alone: every accepted operation of a trickle case is in effect no later than
    max_age + slack after LogPin/LogUnpin returned *)
+(* an operation whose effect never showed (the harness writes 2^50) is not judged here: either it was never committed
+   (TNoAge / TStuck: codes 13, 14) or it was and the final pinset lacks its effect (code 15) *)
+Definition never_seen : N := 1125899906842624.
 Definition late_ops (h : h1) : list (N * N) :=
-  if 0 <? h_slack h then filter (fun av => fst av + h_age h + h_slack h <? snd av) (h_lat h) else [].
+  if 0 <? h_slack h then filter (fun av => (snd av <? never_seen) && (fst av + h_age h + h_slack h <? snd av)) (h_lat h) else [].
 
 Definition spec_codes (h : h1) : list (N * N) :=
   let a := account h in
